@@ -6,8 +6,8 @@ from gen import gen_bundle, gen_cse, gen_entities, gen_gated, gen_iterate, gen_l
 from props._semprop import fill
 from sem import run_semantic
 
-MODULE = "Proofs.Props.C01"
-THEOREMS = ["Facto.Circuit.settle", "Facto.Circuit.settled_fixpoint", "Facto.Circuit.settled_stable", "Facto.Circuit.evalEnt_local", "Facto.scalar_end_to_end", "Facto.checkAll_sound", "Facto.Circuit.history_independent", "Facto.scalar_history_end_to_end", "Facto.bundle_end_to_end", "Facto.enable_end_to_end"]
+MODULE = "Proofs.Props.C10"
+THEOREMS = ["Facto.Circuit.settle", "Facto.Circuit.settled_fixpoint", "Facto.Circuit.settled_stable", "Facto.Circuit.evalEnt_local", "Facto.scalar_end_to_end", "Facto.checkAll_sound", "Facto.Circuit.history_independent", "Facto.scalar_history_end_to_end", "Facto.bundle_end_to_end", "Facto.enable_end_to_end", "Facto.two_builds_agree", "Facto.prune_run", "Facto.scalar_end_to_end_pruned"]
 
 
 def cse_key(op):
